@@ -78,6 +78,10 @@ func EndBlocker(ctx sdk.Context, k keeper.Keeper) {
 						sdk.NewAttribute(types.AttributeKeyPriceDenom, rawDenom),
 					),
 				})
+				// no provider can be priced without the exchange rate: skip this batch like a batch
+				// without eligible providers, so that the context keeps its schedule
+				k.SkipCurrentRequestBatch(ctx, requestContextID, requestContext)
+				k.DeleteNewRequestBatch(ctx, requestContextID, ctx.BlockHeight())
 				return
 			}
 
